@@ -69,7 +69,7 @@ func main() {
 		for _, s := range sj.Structs {
 			imports[s.Module] = "github.com/TarsCloud/TarsGo/tars/protocol/res/" + s.Module
 		}
-		write(filepath.Join(*out, "regfw", "registry_gen.go"), idlgen.EmitRegistry("regfw", sj, imports))
+		write(filepath.Join(*out, "regfw", "registry_gen.go"), idlgen.EmitRegistry("regfw", sj, imports, false))
 	case "programs":
 		for i := *first; i < *first+*count; i++ {
 			p := idlgen.GenProgram(i, idlgen.Allow{OptionalByteNoDefault: *allowOB}).Example(int(*seed)*100003 + i)
@@ -116,7 +116,7 @@ func main() {
 			}
 		}
 		if *mode == "registry" {
-			write(filepath.Join(*out, *pkg, "registry_gen.go"), idlgen.EmitRegistry(*pkg, sj, imports))
+			write(filepath.Join(*out, *pkg, "registry_gen.go"), idlgen.EmitRegistry(*pkg, sj, imports, true))
 		} else {
 			write(filepath.Join(*out, *pkg, "glue_gen.go"), idlgen.EmitGlue(*pkg, sj, imports, infos))
 		}
